@@ -45,6 +45,8 @@ SEEDED = [nm for nm in NAMES if nm in ('rand', 'rand_norm', 'rand_stab', 'core_q
                                        'sample_rand_poi', 'sample_tt', 'sample_func', 'anova', 'ANOVA', 'cross_act')]
 DEFAULT_DICT = ['cross', 'als', 'als_func', 'cache_to_data']
 SOLVERS = ['cross', 'als', 'als_func', 'cross_act']
+# entries whose callbacks carry state across invocations: not eligible for "call again after the caller changed its data"
+REMOD_EXCLUDED = {'cross', 'als', 'rand_custom', 'getter', 'show'}
 
 
 # ------------------------------------------------------------------ instrumented generator and world control
@@ -126,7 +128,7 @@ class Sink:
 
 class HCtx(FreshCtx):
     def seed(self):
-        s = int(self.rng.integers(0, 1 << 31))
+        s = self.draw_seed()
         if self.seed_mode == 'generator':
             self.seed_value = YGen(np.random.PCG64(s))
         else:
@@ -164,6 +166,19 @@ def result_digest(call, ctx, res, exc):
     return dig(items)
 
 
+def modify_args(call):
+    """The caller changes its own data in place (same objects, new values)."""
+    from engines.alias_sim import arrays_of
+    n = 0
+    for a in list(call.args) + list(call.kwargs.values()):
+        for arr in arrays_of(a):
+            if arr.flags.writeable and arr.dtype.kind == 'f' and arr.size:
+                arr *= 0.5
+                arr += 0.25
+                n += 1
+    return n
+
+
 def run_call(call):
     try:
         return call.run(), None
@@ -193,6 +208,7 @@ class Client:
         self.atomic = False
         self.in_call = False
         self.results = []          # (spec index, digest)
+        self.results2 = {}         # spec index -> digest of the call repeated after the caller modified its arguments
         self.error = None
         self.kept = []
 
@@ -248,7 +264,19 @@ class Sched:
                 cl.in_call = False
                 dg = result_digest(call, ctx, res, exc)
                 cl.results.append((k, dg))
-                cl.kept.append(res)
+                if not call.passthrough:
+                    cl.kept.append(res)
+                if spec.get('remodify') and not call.mutable and not call.passthrough and spec['entry'] not in REMOD_EXCLUDED:
+                    # the caller rewrites its own argument objects in place and calls again with the very same objects
+                    self.point(cl, 'exit')
+                    if modify_args(call):
+                        self.stats['fault.caller_modified_arguments_then_recalled'] = self.stats.get('fault.caller_modified_arguments_then_recalled', 0) + 1
+                        self.point(cl, 'enter')
+                        cl.in_call = True
+                        res2, exc2 = run_call(call)
+                        cl.in_call = False
+                        cl.results2[k] = result_digest(call, ctx, res2, exc2)
+                        cl.kept.append(res2)
                 cl.atomic = False
                 self.point(cl, 'exit')
         except SimAbort as e:
@@ -325,7 +353,11 @@ def gen_spec(rng, force=None):
         entry = rng.choice(SOLVERS + DEFAULT_DICT)
     else:
         entry = rng.choice(NAMES)
-    return {'entry': entry, 'argseed': rng.randrange(1 << 30), 'seed_mode': rng.choice(['int', 'int', 'generator'])}
+    sp = {'entry': entry, 'argseed': rng.randrange(1 << 30), 'seed_mode': rng.choice(['int', 'int', 'generator'])}
+    if rng.random() < 0.2 and entry not in REMOD_EXCLUDED:
+        sp['remodify'] = True
+        sp['seed_mode'] = 'int'
+    return sp
 
 
 def generate(rng, prop, tier):
@@ -339,6 +371,8 @@ def generate(rng, prop, tier):
         for _ in range(rng.randint(1, 5)):
             if pool and rng.random() < 0.25:
                 script.append(dict(rng.choice(pool)))            # the same call again, later / elsewhere
+            elif pool and rng.random() < 0.2:
+                script.append(gen_spec(rng, force=rng.choice(pool)['entry']))     # the same function with other arguments
             else:
                 script.append(gen_spec(rng))
             pool.append(script[-1])
@@ -391,7 +425,15 @@ def execute(sc):
                     d1 = result_digest(call, ctx, res, exc)
                 if np.random.get_state()[1].tobytes() != st0:
                     stats['probe.global_rng_changed_by_call'] = stats.get('probe.global_rng_changed_by_call', 0) + 1
-                refs[key] = (d1, spec['entry'], None if exc is None else type(exc).__name__)
+                d2 = None
+                if spec.get('remodify') and not call.mutable and not call.passthrough and spec['entry'] not in REMOD_EXCLUDED:
+                    canonical_world()
+                    call2, ctx2 = build_call(spec, sc['n'])
+                    if modify_args(call2):
+                        res2, exc2 = run_call(call2)
+                        runs += 1
+                        d2 = result_digest(call2, ctx2, res2, exc2)
+                refs[key] = (d1, spec['entry'], None if exc is None else type(exc).__name__, d2)
         # ---- the interleaved, perturbed history
         np.random.seed(sc['world_seed'] % (1 << 31))
         CLOCK.reset()
@@ -411,6 +453,10 @@ def execute(sc):
             for k, dg in cl.results:
                 spec = cl.script[k]
                 ref = refs[cjson(spec)]
+                if k in cl.results2 and ref[3] is not None and cl.results2[k] != ref[3]:
+                    V.append(viol('history-dependence', 'client %d call %d: %s (argseed %d) called again with the same argument objects after the caller changed '
+                                  'their contents returned another result than a first call with those contents' % (cl.id, k, spec['entry'], spec['argseed'])))
+                    break
                 if dg != ref[0]:
                     V.append(viol('determinism', 'client %d call %d: %s (argseed %d, seed as %s%s) returned another result in the interleaved / perturbed history '
                                   'than in isolation (reference %s)' % (cl.id, k, spec['entry'], spec['argseed'], spec.get('seed_mode'),
@@ -426,7 +472,7 @@ def execute(sc):
         SCHED[0] = None
     sample = {'n': sc['n'], 'clients': [[(x['entry'], x['seed_mode']) for x in scr] for scr in sc['clients']],
               'yield_points': s.steps, 'switches_inside_calls': s.switch_inside, 'perturbations': s.perturbed}
-    h = [[r for r in c.results] for c in s.clients]
+    h = [[r for r in c.results] + sorted(c.results2.items()) for c in s.clients]
     return {'violations': V, 'runs': runs, 'stats': stats, 'digest': dig(h, sched_dig, [v['oracle'] for v in V]),
             'nontrivial': nontrivial, 'sim_time': CLOCK.advanced, 'sample': sample, 'interleavings': [sched_dig]}
 
@@ -449,6 +495,8 @@ def shrink(sc, v):
         s = cp(); s['perturb_rate'] = 0.0; yield s
     for ci, script in enumerate(sc['clients']):
         for k, spec in enumerate(script):
+            if spec.get('remodify'):
+                s = cp(); s['clients'][ci][k]['remodify'] = False; yield s
             if spec.get('seed_mode') != 'int':
                 s = cp(); s['clients'][ci][k]['seed_mode'] = 'int'; yield s
     if len(sc['n']) > 2:
